@@ -46,6 +46,7 @@ Definition mk_run (cc : ccase) : run :=
      r_work_fields := num0 "fields" (o_work o); r_work_frags := num0 "frags" (o_work o);
      r_work_vars := num0 "vars" (o_work o); r_work_valid := valid_work o;
      r_work_other := num0 "vother" (o_work o);
+     r_runes := num0 "runes" (o_calls o); r_peeks := num0 "peeks" (o_calls o); r_decodes := num0 "decodes" (o_calls o);
      r_doc := c_doc cc;
      r_cost := match o_cost o with Some k => Some (co_outcome k, co_all k) | None => None end;
      r_ns := o_ns o; r_cost_ns := match o_cost o with Some k => co_ns k | None => 0 end;
@@ -75,6 +76,21 @@ Definition token_classes_agree (cc : ccase) : option sexp :=
       end
   end.
 
+(** Cplx/ScanSteps.v: consumeRune runs once per rune of the part of the input the parser asked the
+    scanner for - never more often than the text has runes, and exactly that often when the parser
+    reached the end of the input.  (0 observed calls: the function no longer exists under that name.) *)
+Definition rune_reads_agree (cc : ccase) : option sexp :=
+  match c_text cc with
+  | None => None
+  | Some bs =>
+      let total := Z.of_nat (runes bs) in
+      let seen := num0 "runes" (o_calls (c_obs cc)) in
+      let at_end := match o_outcome (c_obs cc) with OAccepted | OInvalid => true | _ => false end in
+      if (seen =? 0) || is_crash (o_outcome (c_obs cc)) then None
+      else if (total <? seen) || (at_end && negb (seen =? total)) then Some (v_mismatch "rune-reads" [SZ seen; SZ total])
+      else None
+  end.
+
 Definition compare (cc : ccase) (x : numbers) : option sexp :=
   let o := c_obs cc in
   let crashed := is_crash (o_outcome o) in
@@ -94,6 +110,7 @@ Definition compare (cc : ccase) (x : numbers) : option sexp :=
   let ws := num0 "scan" (o_work o) in
   first_some [
     token_classes_agree cc;
+    rune_reads_agree cc;
     (if outcome_ok then None else Some (v_mismatch "parser-outcome" []));
     (if negb (x_ok x) then Some (v_mismatch "model-out-of-fuel" []) else None);
     (if crashed then None else
@@ -148,6 +165,10 @@ Definition classes (cc : ccase) (x : numbers) : list string :=
        | OAccepted => "accepted" | OInvalid => "invalid" | OSyntax => "syntax-error"
        | ODepth => "depth-error" | OPanic => "panic" | OTimeout => "timeout" end]
    ++ (if num0 "prods" (o_calls o) =? x_psteps x then ["productions-exact"] else ["productions-differ"])
+   ++ (match c_text cc with
+       | Some bs => if num0 "runes" (o_calls o) =? Z.of_nat (runes bs) then ["runes-exact"] else ["runes-differ"]
+       | None => []
+       end)
    ++ (if 1000 <=? ntok then ["tokens-1000+"] else if 100 <=? ntok then ["tokens-100+"] else [])
    ++ (if 240 <=? nest then ["nesting-240+"] else if 20 <=? nest then ["nesting-20+"] else [])
    ++ (if (ntok >=? 1000) && (nest <=? 3) then ["flat-and-wide"] else [])
